@@ -35,10 +35,15 @@ ASSUMPTIONS = [
     "scores are compared as bit patterns only between merge-free, deletion-free, single-index, scored recipes; a recipe whose layout contains a merged segment is compared separately (known finding scores-differ-with-merged-segments)",
     "the digest of a writer-backed recipe is read from a Reader whose snapshot is no longer the writer's current root (one no-op batch later): such a snapshot does not recycle term field readers, so its answers cannot depend on the searches run before; the recycling reader is probed separately (hist= section: three rounds of every query must return the history-free ids — this is how the check re-finds the defect postings-iterator-recycled-while-in-use on a tree without commit a8a2358)",
     "the layout a recipe reaches (segments, merged, pending deletions) is read from the verif trace hook of the writer; forced-merge recipes wait for 90 ms without writer events (cap 4 s), a recipe that never quiesces is marked no-quiescence",
+    "Backup (Bluge.Layout part E): a Directory.Persist either completes - the file then holds exactly the new content - or fails and leaves no file of that name (FileSystemDirectory.Persist: C13 persist_exact_durable / persist_fail_clean); which Persist of a backup fails is a parameter of the model. The backup-partial recipes make a chosen Persist of the REAL Snapshot.Backup fail inside the REAL FileSystemDirectory.Persist (a WriterTo that stops half way, by a write error or by honouring the closed cancel channel) and compare the directory listing, the refusal of OpenReader and the re-run backup with the model; observed: with the bundled segment plugins closing the cancel channel has no effect on Backup (Segment.WriteTo and Snapshot.WriteTo ignore it), the backup-cancel recipe records which of the two outcomes the code showed (branch backup-cancel-ignored / backup-cancel-honoured)",
+    "backup_equiv / backup_partial_never_wrong quantify over targets whose snapshot files are older than the snapshot backed up, resp. whose snapshots all load and whose segment files with the ids of the snapshot are files of the same index (segment ids are never re-used: C06 sid_never_returns); witness theorem backup_into_newer_witness shows the first hypothesis is needed",
+    "layout_irrelevant_searchers / same_documents_same_answers (BlugeProofs.C08.ViaC07) inherit the hypotheses of C07_exact_repaired_partial: every boolean of the query has a clause, and the compiled plan passes the decidable okB (evaluated by the C07 driver on every query it replays); score mode none and the rewrites of index/optimize.go are outside that theorem and are covered here by opt_equiv",
 ]
 TRUSTED = [
     "hand-written model Bluge.Layout (rewrites of index/optimize.go, WriterOffline, layouts/abs, MultiSearch collector) tied to /repo by the correspondence streams `layout` (all answers of ~20 build recipes per corpus, predicted from the logical documents alone + pairwise oracle) and `opt` (real NewConjunctionSearcher/NewDisjunctionSearcher on real per-segment iterators vs the model on the observed iterator shapes, incl. Min() and whether the rewrite fired)",
     "go/harness/c08 and its generators; the driver's query evaluator (not itself the subject of a theorem here: C07)",
+    "the fact extractor go/extract/c08.go (go/parser + the statement walker of go/extract/c01.go): renders the statements of 25 functions of index/optimize.go, index/unadorned.go, search/searcher/search_{conjunction,disjunction}.go, writer_offline.go, index/writer_offline.go, index/snapshot.go (Backup), reader.go, index/writer.go (OpenReader) and classifies 47 facts (fresh bitmaps, in-place calls, scope of the 1-hit state, installed iterators, offsets, rewrite guards, minSearcher, flush test, mergeMax, merge queue, Backup order); refuses source it does not render; BlugeProofs.C08.Gen obliges the tables to equal the annotated expected ones (BlugeProofs/C08/Facts.lean)",
+    "BlugeProofs.C08.ViaC07 rests on the C07 package (model Bluge.Search / Bluge.C07, theorem C07_exact_repaired_partial, its Gen layer regenerated by this check through genC07) and on its trusted base",
 ]
 EXEC_TIMEOUT = {"quick": 900, "thorough": 7200}
 SEARCH_SCALE = 2
@@ -88,15 +93,23 @@ LEVEL_TEXT = ("Lean 4 theorems about models of the layout-sensitive code: (a) th
               "terms and any per-segment iterators, exactly what the leap-frog conjunction / the min<=1 disjunction over the "
               "global posting lists enumerate (both searchers are modelled and proved to enumerate the intersection / union); "
               "(b) the offline writer ends with one segment holding the inserted documents, for every batch size and every "
-              "non-empty corpus (empty corpus: panic, witness theorem); (c) layouts with the same live documents give the same match "
+              "corpus (the empty one ends with an empty snapshot of epoch 0, since fix 07737c7); (c) layouts with the same live documents give the same match "
               "multiset, ids, stored fields, symmetric aggregations, and field-sorted lists with identical key sequences; "
               "collection statistics are sums over segments; (d) one collector over concatenated readers = sorted union = k-way "
-              "merge. Tied to /repo by a correspondence run that builds every corpus ~20 ways on the real code and predicts the "
+              "merge; (e) a Backup in which every Persist completes is opened by OpenReader as exactly the reader's snapshot, for any "
+              "target holding only older snapshots, and a Backup cut short at ANY Persist never leaves something a reader opens other "
+              "than what the target held before (a fresh target stays unopenable; run again it opens as the snapshot); (f) from C07: "
+              "the multi-segment searcher machines of two snapshots with the same live documents return the same documents for every "
+              "query C07_exact_repaired_partial covers. The statements of the modelled code are regenerated from /repo on every run "
+              "(25 statement skeletons + 47 classified facts = the annotated expected tables). Tied to /repo by a correspondence run that builds every corpus ~20 ways on the real code and predicts the "
               "complete digest of answers from the logical documents alone")
-LEVEL_NOTE = ("trusted: Lean kernel + propext/Classical.choice/Quot.sound; the hand-written model Bluge.Layout and the harness "
-              "go/harness/c08; ice/roaring/vellum behaviour assumed and observed per run; opt_equiv is proved at full strength "
-              "(with Min(), true since the minSearcher repair); offline_equiv excludes the empty corpus (panic witness, repair "
-              "proposed); scores on merged segments are outside the proved part (known finding)")
-TECHNIQUE = ("Lean 4 proof (sorted-list extensionality, induction over cursors/fuel, permutation arguments) + differential "
+LEVEL_NOTE = ("trusted: Lean kernel + propext/Classical.choice/Quot.sound; the hand-written model Bluge.Layout (tied by Gen tables and "
+              "the correspondence run), the extractor go/extract/c08.go and the harness go/harness/c08; ice/roaring/vellum behaviour "
+              "assumed and observed per run; opt_equiv is proved at full strength (with Min(), true since the minSearcher repair); "
+              "offline_equiv_all covers the empty corpus (since fix 07737c7); scores on merged segments are outside the proved part "
+              "(known finding); a writer closed before any batch leaves a directory no reader opens (known finding, repair proposed in "
+              "work/C08/fix-never-written-index.diff)")
+TECHNIQUE = ("Lean 4 proof (sorted-list extensionality, induction over cursors/fuel, permutation arguments, association-list directories) + "
+             "regenerated statement tables of the modelled Go functions (`rfl` against annotated expected tables) + differential "
              "correspondence: model-predicted digests and a pairwise oracle over build recipes, and a physical-level stream of the "
              "rewrites on real segment iterators")
